@@ -265,16 +265,24 @@ def check_demux(case, opts, fails):
 
 
 def check_cores(case, opts, fails):
-    """C06 / C19: -j N against -j 1, output name suffixes, compression."""
+    """C06 / C19: -j N against -j 1: main output, every redirect file (too short / too long / untrimmed) and the info, rest
+    and wildcard files byte-identical, JSON report identical apart from the core count; output name suffixes."""
     d, paired, rng = case.d, case.paired, case.rng
     suffix = rng.choice([".fq", ".fastq", ".fasta", ".fa", ".fq.gz", ".fasta.gz"])
+    side_names = ["s1.fq", "s2.fq", "l1.fq", "l2.fq", "u1.fq", "u2.fq", "info.txt", "rest.txt", "wild.txt"]
+    extra = []
+    if rng.random() < 0.4:
+        extra += ["--info-file", os.path.join(d, "info.txt")]
+    if rng.random() < 0.2:
+        extra += ["--rest-file", os.path.join(d, "rest.txt")]
+    if rng.random() < 0.2:
+        extra += ["--wildcard-file", os.path.join(d, "wild.txt")]
     res = {}
     for cores in (1, rng.choice([2, 3])):
         o1 = os.path.join(d, f"c{cores}.1{suffix}")
         outs = ["-o", o1] + (["-p", os.path.join(d, f"c{cores}.2{suffix}")] if paired else [])
         rep = os.path.join(d, f"rep{cores}.json")
-        args = ["-j", cores, "--buffer-size", "4000"] if False else ["-j", cores]
-        args = args + opts + ["--json", rep] + outs + case.inputs()
+        args = ["-j", cores] + opts + extra + ["--json", rep] + outs + case.inputs()
         code, _, err = run(args)
         if code == 2:
             return False
@@ -285,17 +293,31 @@ def check_cores(case, opts, fails):
         for k in ("cores", "command_line_arguments", "cutadapt_version", "python_version", "wall_time_seconds"):
             js.pop(k, None)
         raw = (gzip.open(o1, "rb") if o1.endswith(".gz") else open(o1, "rb")).read()
-        res[cores] = (raw, js, args)
+        raw2 = b""
+        if paired:
+            o2 = os.path.join(d, f"c{cores}.2{suffix}")
+            raw2 = (gzip.open(o2, "rb") if o2.endswith(".gz") else open(o2, "rb")).read()
+        side = {}
+        for nme in side_names:
+            pth = os.path.join(d, nme)
+            if os.path.exists(pth):
+                side[nme] = open(pth, "rb").read()
+                os.unlink(pth)
+        res[cores] = (raw, js, args, raw2, side)
         fmt = "fasta" if suffix in (".fasta", ".fa", ".fasta.gz", ".fa.gz") else "fastq"
         first = raw[:1]
         if raw and ((fmt == "fasta") != (first == b">")):
             fails.append(("C19", args, f"output named *{suffix} was written as {'FASTA' if first == b'>' else 'FASTQ'}",
                           {"suffix": suffix, "cores": cores}))
     (c1, cN) = sorted(res)
-    if res[c1][0] != res[cN][0]:
+    if res[c1][0] != res[cN][0] or res[c1][3] != res[cN][3]:
         fails.append(("C06", res[cN][2], f"output with -j {cN} differs from -j 1", {"suffix": suffix, "cores": cN}))
     if res[c1][1] != res[cN][1]:
         fails.append(("C06", res[cN][2], f"JSON report with -j {cN} differs from -j 1"))
+    for nme in sorted(set(res[c1][4]) | set(res[cN][4])):
+        if res[c1][4].get(nme) != res[cN][4].get(nme):
+            fails.append(("C06", res[cN][2], f"file {nme} with -j {cN} differs from -j 1"))
+            break
     return True
 
 
